@@ -7,6 +7,6 @@ CONSTANTS
   GenVars = {"x"}
   SimpleKinds = {"assign", "use", "call", "continue", "break", "return"}
   Shape = "loop"
-INVARIANT InvAll
+INVARIANT InvAllLive
 INVARIANT EmitLoopCont
 CHECK_DEADLOCK FALSE
